@@ -192,4 +192,19 @@ for fn, nm, files in QFAM:
       bound='operands of at most %d elements (exact-fit objects), all contents / sizes / flags' % (4 if fn >= 60 else 5), timeout=900,
       stubs=['stubs/libc_query.c'])
 
+# ---- C14: tokenizer call sequences
+for nm, path, wide in (('strtok_s', 'src/str/strtok_s.c', False), ('wcstok_s', 'src/wchar/wcstok_s.c', True)):
+    J('B.%s.seq' % nm, ['C14', 'C01', 'C02', 'C05'], 'B', 'harness/tokfam.c', sources=[path] + WCS_COMMON,
+      defines=['N=3', 'DL=2', 'K=5'] + (['WIDE'] if wide else []), unwind=8, object_bits=10, replay=True,
+      functions=['_%s_chk' % nm], timeout=1200, tiers=('quick',),
+      bound='strings of at most 4 elements, two delimiter sets of <= 2 characters chosen per call, 5 calls')
+    J('B.%s.seq5' % nm, ['C14', 'C01', 'C02', 'C05'], 'B', 'harness/tokfam.c', sources=[path] + WCS_COMMON,
+      defines=['N=4', 'DL=2'] + (['WIDE'] if wide else []), unwind=9, object_bits=10, replay=True,
+      functions=['_%s_chk' % nm], timeout=3000, tiers=('thorough',),
+      bound='strings of at most 5 elements, two delimiter sets of <= 2 characters chosen per call, 7 calls')
+    J('B.%s.delim17' % nm, ['C14', 'C02'], 'B', 'harness/tokfam.c', sources=[path] + WCS_COMMON,
+      defines=['N=2', 'DL=17', 'K=3'] + (['WIDE'] if wide else []), unwind=21, object_bits=10, replay=True,
+      functions=['_%s_chk' % nm], timeout=1200, tiers=('thorough',) if wide else ('quick', 'thorough'),
+      bound='strings of at most 3 elements, delimiter sets of up to 17 characters (the STRTOK_DELIM_MAX_LEN limit), 3 calls')
+
 BY_NAME = {j.name: j for j in JOBS}
